@@ -61,14 +61,14 @@ class C05(Prop):
     lean_modules = ["PkgProofs.Props.C05"]
     theorems = [
         "C05.contains_is_all", "C05.contains_perm_invariant", "C05.empty_matches_all", "C05.ofString_empty",
-        "C05.clause_order_dup_invariant", "C05.matchAlike_all", "SS.equal_specs_match_alike",
-        "SS.equal_specs_same_prereleases", "SS.key_cases", "SS.canonical_isOk", "SS.scan_no_star",
+        "C05.clause_order_dup_invariant", "C05.matchAlike_all", "SSet.equal_specs_match_alike",
+        "SSet.equal_specs_same_prereleases", "SSet.key_cases", "SSet.canonical_isOk", "SSet.scan_no_star",
         "C05.ofSpecs_total", "C05.ofString_total",
         "C05.and_is_inter", "C05.and_override_table", "C05.and_error_iff", "C05.and_comm", "C05.and_comm_ext",
         "C05.and_assoc", "C05.and_eq_parse_concat", "C05.eq_iff", "C05.eq_hash", "C05.eq_refl", "C05.eq_symm",
         "C05.eq_trans", "C05.ofString_wf", "C05.and_wf", "C05.str_perm_invariant", "C05.str_parses_back",
         "C05.str_does_not_parse_back_with_comma", "C05.str_depends_on_supply_order",
-        "SS.union_fromList", "SS.foldl_insert_foldl", "SS.contains_eq_admits", "SS.sortBy_perm_invariant",
+        "SSet.union_fromList", "SSet.foldl_insert_foldl", "SSet.contains_eq_admits", "SSet.sortBy_perm_invariant",
     ]
     rule = ("per sampled case: two multisets of 0-6 clauses around a common version (random order, spacing, duplicates, "
             "equal-but-differently-spelled members such as ==1.0/==1.0.0, a few ===<text> clauses), built from a string or "
